@@ -541,6 +541,16 @@ def opPolyVerdict (j : Json) : Except String Json := do
   pure (Json.mkObj [("linear_cc", Json.bool (Poly.linearCC isVar e)),
                     ("n_raw_terms", Json.num (JsonNumber.fromNat (Poly.expandRaw e).length))])
 
+def opFromOde (j : Json) : Except String Json := do
+  let factors ← getRats j "factors"; let x ← getRats j "x"
+  let locals_ ← j.getObjValAs? (List Nat) "local"
+  let inhom ← getRat j "inhom"; let nonlin ← getRat j "nonlin"
+  let isLocal : Nat → Bool := fun i => locals_.contains i
+  let r := Shapes.fromOde factors x isLocal inhom nonlin
+  let localX := ((List.range factors.length).filter isLocal).map (fun jj => x.getD jj 0)
+  pure (Json.mkObj [("local_factors", jRats r.1), ("inhom", Json.str (stringOfRat r.2.1)), ("nonlin", Json.str (stringOfRat r.2.2)),
+                    ("reconstituted", Json.str (stringOfRat (Shapes.reconstitute r.1 localX r.2.1 r.2.2)))])
+
 def dispatch (op : String) (j : Json) : Json :=
   match op with
   | "ping" => Json.mkObj [("pong", j)]
@@ -558,6 +568,7 @@ def dispatch (op : String) (j : Json) : Json :=
   | "split" => run (opSplit j)
   | "param-syms" => run (opParamSyms j)
   | "subsys" => run (opSubsys j)
+  | "from-ode" => run (opFromOde j)
   | "components" => run (opComponents j)
   | "assemble" => run (opAssemble j)
   | "validate" => run (opValidate j)
